@@ -44,6 +44,7 @@ MODELS = {
     "B1": {"cc": "none", "wgrid": "disc"},
     "B2": {"h": "hd", "filt": "none"},
     "B3": {"cc": "cl", "e": 1},  # two continuous choices of unequal size + dense and restricted discrete choice
+    "B4": {"filt": "none", "e": 1, "uperiod": 1},  # two unrestricted discrete choices (same kind), period in utility
 }
 SOLVE_LETTERS = ["solve(P1)", "solve(P2)", "solve(P1np)", "solve(P1jax)", "solve(M:=P1)", "solve(M:=P3 in place)"]
 SIM_LETTERS = ["sim(P1,S1,0)", "sim(P2,S2,1)", "sim(P1,S2,0)", "sim(P1,S1,1)", "sim(M:=P1,S1,0)", "sim(M:=P3 in place,S1,0)"]
@@ -203,7 +204,8 @@ class Session:
             arg = spec[0] if spec[0] is not None else self._m("P3" in letter)
             before, mb = _snapshot(arg), _model_snapshot(self.model)
             init = {s: jnp.asarray(v) for s, v in spec[1].items()}
-            fr = self.f(arg, initial_states=init, seed=spec[2])
+            # a parameter-dependent additional target: must follow the params of THIS call
+            fr = self.f(arg, initial_states=init, seed=spec[2], additional_targets=["utility"])
             d = _frame_digest(fr)
             canon = spec[3]
         if _snapshot(arg) != before:
@@ -252,7 +254,8 @@ def variant_model(v, seed):
     fv = dict(family.BASE, aux="one")
     src, states, choices, funcs, P, shocks = family.make_source(fv)
     if v == "A-loggrid":
-        states = [(n, g.replace("Lin(1, 5, 5)", "Log(1, 5, 5)")  # same name, bounds and size as the linear grid of variant A) for n, g in states]
+        # same name, bounds and size as the linear grid of variant A
+        states = [(n, g.replace("Lin(1, 5, 5)", "Log(1, 5, 5)")) for n, g in states]
         src = src.replace("return (w - c) + 1.0 + 0.25 * d + 0.1 * inc", "return jnp.clip((w - c) + 1.0 + 0.25 * d + 0.1 * inc, 1.0, 5.0)")
     elif v == "A-coef":
         src = src.replace("0.31 * d * (s + 1)", "0.47 * d * (s + 1)")
